@@ -9,3 +9,13 @@ Definition shipped (v : version) : list (string * schema) :=
 Definition actions_of (v : version) : list string :=
   match v with V16 => actions16 | V201 => actions201 end.
 Definition validate_shipped := validate shipped.
+
+From OV.Gen Require Import Classes16 Classes201 Errors.
+From OV.Model Require Import Classes.
+From Coq Require Import DecimalString.
+Definition results_of (v : version) : list classdef :=
+  match v with V16 => results16 | V201 => results201 end.
+Definition calls_of (v : version) : list classdef :=
+  match v with V16 => calls16 | V201 => calls201 end.
+(* the deterministic id generator the harness installs: "gen-<n>" *)
+Definition gen_id (n : nat) : string := ("gen-" ++ NilEmpty.string_of_uint (Nat.to_uint n))%string.
